@@ -77,6 +77,11 @@ GFX = {
         K('ss_even', SS, ('if', 1), ['first_x_coord', 'x'], 'bool'),
         K('ss_b_even', SS, ('assign', 'b', 1), ['b', 'val']),
         K('ss_b_odd', SS, ('assign', 'b', 2), ['b', 'val']),
+        # from_lines: the line-length filter and the bounds of the digit-swapping loop
+        K('gfx_fl_skip', 'Gfx.from_lines', ('if', 0), ['len_line'], 'bool'),
+        K('gfx_fl_range_lo', 'Gfx.from_lines', ('call_arg', 'range', 0, 0), []),
+        K('gfx_fl_range_hi', 'Gfx.from_lines', ('call_arg', 'range', 0, 1), []),
+        K('gfx_fl_range_step', 'Gfx.from_lines', ('call_arg', 'range', 0, 2), []),
     ],
     'extra': lambda mod, tree, src: (
         'Definition gfx_transparent : Z := %d.\n' % mod.TRANSPARENT +
@@ -166,7 +171,16 @@ SFX = {
         K('sfx_sn_store_msb_idx', SN, ('store_idx', 1), ['id', 'note']),
     ] + [K('sfx_gp_idx_%d' % i, 'Sfx.get_properties', ('idx_of', ('return', 0, i)), ['id']) for i in range(4)]
       + [K('sfx_sp_idx_%d' % i, 'Sfx.set_properties', ('store_idx', i), ['id']) for i in range(4)]
-      + [K('sfx_tl_wv_byte', 'Sfx.to_lines', ('elt', ('call_arg', 'bytes', 3, 0), 1), ['waveform', 'volume'])],
+      + [K('sfx_tl_wv_byte', 'Sfx.to_lines', ('elt', ('call_arg', 'bytes', 3, 0), 1), ['waveform', 'volume'])]
+      # from_lines: the line-length filter, the note loop bounds, the slice bounds of every int(line[a:b], 16)
+      + [K('sfx_fl_skip', 'Sfx.from_lines', ('if', 0), ['len_line'], 'bool'),
+         K('sfx_fl_range_lo', 'Sfx.from_lines', ('call_arg', 'range', 0, 0), []),
+         K('sfx_fl_range_hi', 'Sfx.from_lines', ('call_arg', 'range', 0, 1), []),
+         K('sfx_fl_range_step', 'Sfx.from_lines', ('call_arg', 'range', 0, 2), [])]
+      + [K('sfx_fl_prop%d_%s' % (k, 'lo' if j == 0 else 'hi'), 'Sfx.from_lines',
+           ('slice_lo' if j == 0 else 'slice_hi', ('call_arg', 'int', k, 0)), []) for k in range(4) for j in range(2)]
+      + [K('sfx_fl_note%d_%s' % (k, 'lo' if j == 0 else 'hi'), 'Sfx.from_lines',
+           ('slice_lo' if j == 0 else 'slice_hi', ('call_arg', 'int', 4 + k, 0)), ['i']) for k in range(4) for j in range(2)],
     'extra': lambda mod, tree, src: (
         'Definition sfx_hex_line_bytes : Z := %d.\n' % mod.Sfx.HEX_LINE_LENGTH_BYTES +
         'Definition sfx_empty : list Z := [%s].\n' % '; '.join(str(b) for b in mod.Sfx.empty(version=8)._data)),
